@@ -64,7 +64,8 @@ def flood(sock, stop):
     threading.Thread(target=run, daemon=True).start()
 
 
-CERTS = "/repo/pynetdicom/tests/cert_files/"
+from common import REPO
+CERTS = REPO + "/pynetdicom/tests/cert_files/"
 
 
 def client_tls():
